@@ -6,6 +6,7 @@ import (
 	"fmt"
 	"go/ast"
 	"go/token"
+	"go/types"
 	"os"
 	"path/filepath"
 	"sort"
@@ -127,6 +128,10 @@ func (w *World) generate(keep func(fs *FuncSpec) bool) []*FuncReport {
 			rep.Err = fmt.Errorf("function under contract not found: %s (renamed or removed)", k)
 			continue
 		}
+		if err := w.expandRefinements(fn, fs); err != nil {
+			rep.Err = err
+			continue
+		}
 		obls, notes, err := w.x.VerifyFunc(fn, fs)
 		rep.Obls, rep.Notes, rep.Err = obls, notes, err
 		rep.Paths = w.x.vc.paths
@@ -236,6 +241,9 @@ func cmdVerify(args []string) {
 				st = "FAIL"
 			}
 			fmt.Printf("%s %-8s %6.2fs %-14s %s  [%s] %s\n", st, o.Result, o.TimeS, o.Solver, o.Name, strings.Join(o.Props, ","), o.File)
+			if o.Result == "error" {
+				fmt.Printf("     %s\n", truncate(o.Model, 300))
+			}
 		}
 	}
 	fmt.Printf("%d obligations, %d not ok\n", len(all), bad)
@@ -301,4 +309,98 @@ func (w *World) lemmaObligations(keep func(l *Lemma) bool) []*Obligation {
 		}()
 	}
 	return out
+}
+
+// expandRefinements adds the instantiated interface method contract to an implementation's contract.
+func (w *World) expandRefinements(fn *ssa.Function, fs *FuncSpec) error {
+	if len(fs.Refines) == 0 || fs.refExpanded {
+		return nil
+	}
+	fs.refExpanded = true
+	for _, rf := range fs.Refines {
+		var im *FuncSpec
+		for k, v := range w.db.IMeths {
+			// k = pkgpath.Iface.Method ; rf.IfaceMethod = pkgshort.Iface.Method
+			i := strings.LastIndex(k, "/")
+			short := k[i+1:]
+			if short == rf.IfaceMethod || strings.ReplaceAll(short, "-", "_") == rf.IfaceMethod {
+				im = v
+			}
+		}
+		if im == nil {
+			return fmt.Errorf("refines: no interface method contract %q", rf.IfaceMethod)
+		}
+		// parameter renaming: interface contract names -> implementation names (positional), self -> receiver
+		idents := map[string]string{}
+		params := fn.Params
+		if fn.Signature.Recv() != nil && len(params) > 0 {
+			idents["self"] = "iface_self"
+			params = params[1:]
+		}
+		imName := rf.IfaceMethod[strings.LastIndex(rf.IfaceMethod, ".")+1:]
+		// find interface method parameter names from the type
+		var sig *types.Signature
+		if fn.Signature.Recv() != nil {
+			ms := w.prog.MethodSets.MethodSet(fn.Signature.Recv().Type())
+			_ = ms
+		}
+		sig = fn.Signature
+		_ = sig
+		// positional names: the interface contract uses the interface's declared parameter names; look them up
+		if names := w.ifaceParamNames(rf.IfaceMethod); names != nil {
+			for i, n := range names {
+				if i < len(params) && n != "" && n != "_" {
+					idents[n] = params[i].Name()
+				}
+			}
+		}
+		_ = imName
+		label := func(c *Clause, i int) string {
+			l := c.Label
+			if l == "" {
+				l = fmt.Sprintf("%d", i+1)
+			}
+			return "refines." + sanitize(imName) + "." + l
+		}
+		for i, c := range im.Requires {
+			fs.Requires = append(fs.Requires, &Clause{Kind: "requires", Label: label(c, i), Props: c.Props, E: substExpr(c.E, rf.Subst, idents), Src: c.Src + " (instantiated at " + rf.Src + ")"})
+		}
+		for i, c := range im.Ensures {
+			fs.Ensures = append(fs.Ensures, &Clause{Kind: "ensures", Label: label(c, i), Props: c.Props, Reveal: c.Reveal, E: substExpr(c.E, rf.Subst, idents), Src: c.Src + " (instantiated at " + rf.Src + ")"})
+		}
+	}
+	return nil
+}
+
+// ifaceParamNames returns the parameter names an interface declares for a method ("pkg.Iface.Method").
+func (w *World) ifaceParamNames(ref string) []string {
+	parts := strings.Split(ref, ".")
+	if len(parts) != 3 {
+		return nil
+	}
+	for _, p := range w.prog.AllPackages() {
+		if p.Pkg.Name() != parts[0] && shortPkgName(p.Pkg.Path()) != parts[0] {
+			continue
+		}
+		obj, ok := p.Pkg.Scope().Lookup(parts[1]).(*types.TypeName)
+		if !ok {
+			continue
+		}
+		it, ok := obj.Type().Underlying().(*types.Interface)
+		if !ok {
+			continue
+		}
+		for i := 0; i < it.NumMethods(); i++ {
+			m := it.Method(i)
+			if m.Name() == parts[2] {
+				sig := m.Type().(*types.Signature)
+				var names []string
+				for j := 0; j < sig.Params().Len(); j++ {
+					names = append(names, sig.Params().At(j).Name())
+				}
+				return names
+			}
+		}
+	}
+	return nil
 }
